@@ -362,6 +362,22 @@ func TestVerifC07(t *testing.T) {
 		}
 	}
 	rec(nil)
+	// three-operation histories that store the SAME version twice before removing or re-hashing it
+	// (every index key is then written twice before it is deleted: a tombstone that cancels only
+	// the newest write shows after the log is replayed); the thorough tier has them anyway
+	if maxLen < 3 {
+		for ci, seq := range [][]int{{0, 0, 4}, {0, 0, 1}, {3, 3, 4}, {0, 5, 4}, {1, 1, 0}} {
+			if !vh.Mine(idx+1+ci) || r.Expired() {
+				continue
+			}
+			var so []storeOp
+			for _, i := range seq {
+				so = append(so, ops[i])
+			}
+			c07RunHistory(r, sp, name(seq), so, 0, scratch, true)
+			r.Count("histories", 1)
+		}
+	}
 	r.Max("max_history_len", int64(maxLen))
 }
 
